@@ -21,11 +21,11 @@ CLAIMS = {
          "Trusted: go/types, go/cfg; the dictionary of Mongo operator meanings on scalars.",
          "DESIGN.md §4 C14"),
  "C10": ("abstract interpretation over go/ssa (domain nil/non-nil/true/false) of HasKey/Get under the library's found/absent outcomes; must-assign dataflow, commit-after-error and iterator-positioning typestate over go/cfg; registration/link check (go/types)",
-         "Decides sibling agreement of the four adapters structurally, for ALL keys and operation sequences: (S1) every HasKey/Get of every store, transaction and iterator type returns true/false (nil/non-nil error) exactly on the library's found/absent outcome and calls no method on a nil interface value in either; (S2) iterators whose Valid() reads cached fields assign them on every path of Seek, SeekReverse and Next; (S3) no library Commit/Flush is reached after the Update/BulkWrite callback failed, none is deferred unconditionally, (S3b) transaction objects do not write straight to the store handle; (S4) library iterators are positioned before Valid/Key/Value/Item; (S5) driver names the server selects are registered by packages it links; (S6) block-wise prefix deletes repeat whenever a block came back full; (S7) Seek/SeekReverse hand the caller's key itself to the library. Does not decide key order, seek landing positions, prefix-delete completeness, or cross-driver equality of traversal results.",
-         "Trusted: outcome tables of the store libraries' lookup calls and the rollback behaviour of bolt/badger transaction wrappers (props/c10.go); go/ssa, go/cfg.",
+         "Decides sibling agreement of the four adapters structurally, for ALL keys and operation sequences: (S1) every HasKey/Get of every store, transaction and iterator type returns true/false (nil/non-nil error) exactly on the library's found/absent outcome and calls no method on a nil interface value in either; (S2) iterators whose Valid() reads cached fields assign them on every path of Seek, SeekReverse and Next; (S3) no library Commit/Flush is reached after the Update/BulkWrite callback failed, none is deferred unconditionally, (S3b) transaction objects do not write straight to the store handle; (S4) library iterators are positioned before Valid/Key/Value/Item; (S5) driver names the server selects are registered by packages it links; (S6) block-wise prefix deletes repeat whenever a block came back full; (S7) Seek/SeekReverse hand the caller's key itself to the library; (S8) a byte slice handed out by a library iterator that reuses its buffers (pebble, goleveldb, badger) is copied before an adapter keeps it in a field or a collected slice. Does not decide key order, seek landing positions, prefix-delete completeness, or cross-driver equality of traversal results.",
+         "Trusted: outcome tables of the store libraries' lookup calls, the rollback behaviour of bolt/badger transaction wrappers and the buffer-validity contracts of the four libraries (props/c10.go, c10b.go); go/ssa, go/cfg.",
          "DESIGN.md §4 C10"),
  "C01": ("ownership analysis of the traveler constructors, private-copy classification of in-place writes, dispatch totality over the statement oneof, ordering-domain evaluation of limit/skip/range (go/types AST)",
-         "Decides structural necessary conditions for ALL programs and graphs: (O1) AddCurrent/AddMark/Copy never store through their receiver and give the new traveler its own Marks map and Path slice (siblings derived from one traveler do not alias); (O2) the steps of the C01 alphabet write only into travelers whose current element and marks are private deep copies; (O3) every GraphStatement oneof member has an arm in the compiler and in the step inspector, each compile arm returns a processor or an error, every result type has an arm in Convert; (O4) limit/skip/range forward the received traveler unchanged, count each non-signal row once, and forward exactly when the documented predicate holds on every ordering of (row index, bounds). Does not decide row-multiset equality of the moving, filtering or projecting steps.",
+         "Decides structural necessary conditions for ALL programs and graphs: (O1) AddCurrent/AddMark/Copy never store through their receiver and give the new traveler its own Marks map and Path slice (siblings derived from one traveler do not alias); (O2) the steps of the C01 alphabet write only into travelers whose current element and marks are private deep copies; (O3) every GraphStatement oneof member has an arm in the compiler and in the step inspector, each compile arm returns a processor or an error, every result type has an arm in Convert; (O4) limit/skip/range forward the received traveler unchanged, count each non-signal row once, and forward exactly when the documented predicate holds on every ordering of (row index, bounds); (O5) a boolean that summarises a loop over keys/labels/values and is read after it is never overwritten on every iteration regardless of its previous value. Does not decide row-multiset equality of the moving, filtering or projecting steps.",
          "Trusted: go/types; the ordering-domain evaluator interprets comparison expressions only.",
          "DESIGN.md §4 C01"),
  "C02": ("VTA call-graph reachability (go/ssa) from each statement kind's processor to the property reader, compared with the arms of the load-elision analysis; taint of step-id strings into ordering comparisons; oneof-member coverage computed from the generated types (go/types AST)",
